@@ -179,4 +179,21 @@ def obligations(tier):
                                     ["installed", "bad_format_111", "simple_line", "wildcard_line", "mixed_case_key_lowered"]
                                     + (["catch_all_wildcard"] if p["LEN1"] == 10 else [])
                                     + (["two_lines_compiled", "two_break_characters"] if p["LEN2"] else []))))
+    # writer -> reader on a concrete key set with a duplicate; CDBMAKE_HPLIST (records per chunk) scaled 1000 -> 1 in the regenerated
+    # copy of cdbmake.h, so that the order of duplicates ACROSS chunks - which needs > 1000 records otherwise - is exercised
+    gen = [Prog("cdbmake.h", out="cdbmake.h", sub=[(r"^#define CDBMAKE_HPLIST 1000$", "#define CDBMAKE_HPLIST 1", 1)])] + \
+          [Prog(f, link=True) for f in ("cdbmss.c", "cdbmake_add.c", "cdbmake_hash.c", "cdbmake_pack.c")]
+    obls.append(Obl("cdb_round_trip", "cdbround.c", progs=gen,
+        repo=["cdb_seek.c", "cdb_hash.c", "cdb_unpack.c", "substdio.c"], lib=["ideal_substdio.c"], sysrename=["read", "lseek"],
+        unwind_default=300, unwind={"substdio_put": 2100}, timeout=600,     # the 2048-byte header is written with one put
+        flags=["--max-field-sensitivity-array-size", "4096"],   # element-wise constant propagation for the 2 kB header / 256-entry tables
+        functions=["cdbmss.c:cdbmss_start/add/finish", "cdbmake_add.c:cdbmake_add/split/throw", "cdbmake_hash.c", "cdbmake_pack.c",
+                   "cdb_seek.c:cdb_seek/cdb_bread/match", "cdb_hash.c", "cdb_unpack.c"],
+        cuts=["CDBMAKE_HPLIST 1000 -> 1 in the regenerated cdbmake.h (parametric: one record per chunk)"],
+        stubs=["file = byte array written through the ideal stream at the seek position and read back by read()/lseek() stubs"],
+        assumes=["three records with concrete one-byte keys a, b, a (duplicate) and symbolic one-byte data"],
+        outside=["symbolic keys (cdb_seek_spec / cdb_writer), more than three records, the real chunk size 1000"],
+        claim="for the table (a,b,a): the database written by the real writer returns through the real reader the first line's data for the "
+              "duplicated key, the right data for the other key and 'not found' for an absent key",
+        expect_witnesses=["round_trip"]))
     return obls
